@@ -71,6 +71,41 @@ def construction_sites(fb, rec):
     return out
 
 
+def rule_raw_outputs(fb, res, rid):
+    """A function that hands out raw header bytes through an untyped output pointer (`void* dest`) must produce
+    every byte: the only use of the pointer is as destination of whole-object copies out of local objects
+    (judged by C20-R2: no padding, all members initialised).  Viewing `dest` as a record and calling setters on
+    it leaves the bytes no setter touches — reserved bytes, fields of other message kinds — as the caller's buffer had them."""
+    n = 0
+    for f in sorted(fb.all_functions(), key=lambda f: f.name):
+        if not f.body:
+            continue
+        for prm in f.params:
+            t = prm["t"]
+            if t.get("k") != "ptr" or t.get("pconst") or (t.get("pointee") or "") != "void":
+                continue
+            n += 1
+            bad = []
+            for x in f.nodes():
+                if x.get("k") == "ref" and x.get("decl") == prm["decl"]:
+                    par = f.parent(x)
+                    while par is not None and par.get("k") == "cast" and not (par.get("t") or {}).get("prec"):
+                        par = f.parent(par)
+                    ok = False
+                    if par is not None and par.get("k") == "call" and facts.copy_args(par) is not None:
+                        dst, src, ln = facts.copy_args(par)
+                        srcn = strip_all_casts(src)
+                        ok = any(y.get("id") == x.get("id") for y in facts.walk(dst)) and srcn.get("k") == "un" and srcn.get("op") == "&" and \
+                            strip_all_casts(srcn["e"]).get("dk") == "local" and const_value(ln) is not None
+                    if not ok:
+                        bad.append(x)
+            res.check(not bad, rid, "raw-output:%s:%s" % (f.name.split("::")[-1], prm.get("name")), (bad[0] if bad else f.raw).get("loc"),
+                      "`%s` only receives whole-object copies of local objects" % prm.get("name"),
+                      "%s writes through `%s` other than by copying a complete local object into it: bytes that no setter writes (reserved bytes, "
+                      "the id field of other message kinds) keep what the caller's buffer held" % (f.name, prm.get("name")))
+    return n
+
+
 def run(ctx):
     fb = ctx.fb()
     res = Result("C20")
@@ -156,6 +191,9 @@ def run(ctx):
                             res.check(bool(defs), "C20-R2", "%s:%s" % (f.name.split("::")[-1], obj["decl"].split(":")[-1]), c.get("loc"),
                                       "scalar local is initialised before its bytes are copied out", "bytes of an uninitialised local are copied out")
 
+    nraw = rule_raw_outputs(fb, res, "C20-R2")
+    if nraw < 2:
+        raise Broken("raw header output functions (void* dest) not found")
     # ---- R3 vectors and raw allocation
     n3 = 0
     for f in fb.all_functions():
